@@ -494,6 +494,321 @@ theorem taxTotal_cat (c E : ℕ) (rows : List Row) (tx : TaxTotal) (hrows : ∀ 
       rw [hlen, ← gP, ← gS]
       exact ⟨hexp, rfl, a1, (catAmounts exactOps .precise c ct0).surcharge, rfl, a2⟩
 
+/-! ## the rows of a document against the exact rows -/
+
+/-- the rows of `Spec.C01.exactQ` (exact total, combos) with the weight of the working total -/
+def exactRowsW (d : Doc) : List (ℚ × List Combo × ℕ) :=
+  d.lines.filterMap (fun l => (Spec.C01.lineTotalQ d.cur d.rates l).map (fun t => (t, l.taxes, lineW l))) ++
+  d.discounts.map (fun x => (-(Spec.C01.docAdjQ (Spec.C01.exactQ d).sum x), x.taxes, 1 + sumW d.lines)) ++
+  d.charges.map (fun x => (Spec.C01.docAdjQ (Spec.C01.exactQ d).sum x, x.taxes, 1 + sumW d.lines))
+
+/-- a working row against an exact row: same combos, total within the row's weight -/
+def RowRel (c : ℕ) (rw : Row) (er : ℚ × List Combo × ℕ) : Prop :=
+  rw.taxes = er.2.1 ∧ |rw.total.toRat - er.1| ≤ (er.2.2 : ℚ) * halfUlp (c + 2)
+
+theorem forall2_append {α β : Type} {R : α → β → Prop} {a1 a2 : List α} {b1 b2 : List β}
+    (h1 : List.Forall₂ R a1 b1) (h2 : List.Forall₂ R a2 b2) : List.Forall₂ R (a1 ++ a2) (b1 ++ b2) := by
+  induction h1 with
+  | nil => exact h2
+  | cons h _ ih => exact List.Forall₂.cons h ih
+
+theorem lines_rowRel (cur : String) (c : ℕ) (rates : List XRate) (ls ls' : List Line)
+    (h : List.Forall₂ (LineRel cur rates c) ls ls') :
+    List.Forall₂ (RowRel c)
+      (ls'.filterMap (fun l => l.total.map (fun t => ({ total := t, taxes := l.taxes } : Row))))
+      (ls.filterMap (fun l => (Spec.C01.lineTotalQ cur rates l).map (fun t => (t, l.taxes, lineW l)))) := by
+  induction h with
+  | nil => exact List.Forall₂.nil
+  | @cons l l' ls ls' hl _ ih =>
+    obtain ⟨t, q, ht, htax, _, hq, herr⟩ := hl
+    simp only [List.filterMap_cons, ht, hq, Option.map_some]
+    exact List.Forall₂.cons ⟨htax, herr⟩ ih
+
+theorem adj_rowRel (c : ℕ) (sum : Amount) (S : ℚ) (W : ℕ) (xs : List DocAdj) (f : Amount → Amount) (g : ℚ → ℚ)
+    (hfg : ∀ a q, |(f a).toRat - g q| = |a.toRat - q|)
+    (hx : ∀ x ∈ xs, DocAdjOk c x) (hs : c + 2 ≤ sum.exp)
+    (hS : |sum.toRat - S| ≤ (W : ℚ) * halfUlp (c + 2)) :
+    List.Forall₂ (RowRel c)
+      ((xs.map (docAdj exactOps .precise c sum)).map (fun x => ({ total := f x.amount, taxes := x.taxes } : Row)))
+      (xs.map (fun x => (g (Spec.C01.docAdjQ S x), x.taxes, 1 + W))) := by
+  rw [List.map_map, List.forall₂_map_left_iff, List.forall₂_map_right_iff]
+  apply List.forall₂_same.mpr
+  intro x hxm
+  refine ⟨docAdj_taxes _ _ _ _, ?_⟩
+  simp only [Function.comp]
+  rw [hfg]
+  have := docAdj_err c sum S W x (hx x hxm) hs hS
+  push_cast
+  linarith
+
+theorem rows_rel (d : Doc) (p : Pre) (hd : DocA d) (hpre : pre exactOps d = .ok p) :
+    List.Forall₂ (RowRel d.c) p.rows (exactRowsW d) := by
+  obtain ⟨hrel, _, hsexp, hS, hdis, hch, hrows, _, _⟩ := pre_spec d p hd hpre
+  rw [hrows]
+  unfold taxRows exactRowsW
+  rw [hdis, hch]
+  refine forall2_append (forall2_append (lines_rowRel _ _ _ _ _ hrel) ?_) ?_
+  · exact adj_rowRel d.c p.sum _ (sumW d.lines) d.discounts neg (fun q => -q)
+      (fun a q => by rw [neg_toRat]; rw [← abs_neg]; congr 1; ring) hd.discounts hsexp hS
+  · exact adj_rowRel d.c p.sum _ (sumW d.lines) d.charges (fun a => a) (fun q => q)
+      (fun a q => rfl) hd.charges hsexp hS
+
+/-- the rows' errors carried into any quantity `F` that is `L`-Lipschitz in the row total, the
+included tax taken out on both sides -/
+theorem rows_err_g (F : ℚ → List Combo → ℚ) (L : List Combo → ℕ) (c : ℕ) (inc : Option String)
+    (rows : List Row) (ers : List (ℚ × List Combo × ℕ))
+    (hLip : ∀ taxes, (∀ cb ∈ taxes, ComboOk ret cb) → ∀ T t : ℚ, |F T taxes - F t taxes| ≤ (L taxes : ℚ) * |T - t|)
+    (h : List.Forall₂ (RowRel c) rows ers)
+    (hrem : ∀ rw ∈ rows, (∀ cb ∈ rw.taxes, ComboOk ret cb) ∧
+      ∀ q, |(remRow c inc rw).total.toRat - remQ inc q rw.taxes| ≤
+        |rw.total.toRat - q| + (incB inc rw.taxes : ℚ) * halfUlp (c + 2)) :
+    |(rows.map (fun rw => F (remRow c inc rw).total.toRat rw.taxes)).sum
+      - (ers.map (fun er => F (remQ inc er.1 er.2.1) er.2.1)).sum| ≤
+      (((ers.map (fun er => (er.2.2 + incB inc er.2.1) * L er.2.1)).sum : ℕ) : ℚ) * halfUlp (c + 2) := by
+  induction h with
+  | nil => simp
+  | @cons rw er rows ers hr _ ih =>
+    obtain ⟨htax, herr⟩ := hr
+    obtain ⟨hcb, hq⟩ := hrem rw (by simp)
+    have ih' := ih (fun x hx => hrem x (by simp [hx]))
+    simp only [List.map_cons, List.sum_cons]
+    rw [← htax]
+    have h1 := hLip rw.taxes hcb (remRow c inc rw).total.toRat (remQ inc er.1 rw.taxes)
+    have h2 := hq er.1
+    have hk : (0 : ℚ) ≤ (L rw.taxes : ℚ) := by positivity
+    have h3 := mul_le_mul_of_nonneg_left (le_trans h2 (add_le_add herr (le_refl _))) hk
+    set A := (rows.map (fun rw => F (remRow c inc rw).total.toRat rw.taxes)).sum
+    set B := (ers.map (fun er => F (remQ inc er.1 er.2.1) er.2.1)).sum
+    have e : F (remRow c inc rw).total.toRat rw.taxes + A - (F (remQ inc er.1 rw.taxes) rw.taxes + B) =
+        (F (remRow c inc rw).total.toRat rw.taxes - F (remQ inc er.1 rw.taxes) rw.taxes) + (A - B) := by ring
+    rw [e]
+    refine le_trans (abs_add_le _ _) ?_
+    push_cast
+    push_cast at ih'
+    nlinarith
+
+theorem lines_weight (cur : String) (c : ℕ) (rates : List XRate) (ls ls' : List Line)
+    (h : List.Forall₂ (LineRel cur rates c) ls ls') (g : List Combo → ℕ → ℕ) :
+    ((ls.filterMap (fun l => (Spec.C01.lineTotalQ cur rates l).map (fun t => (t, l.taxes, lineW l)))).map
+      (fun er => g er.2.1 er.2.2)).sum = (ls.map (fun l => g l.taxes (lineW l))).sum := by
+  induction h with
+  | nil => rfl
+  | @cons l l' ls ls' hl _ ih =>
+    obtain ⟨t, q, _, _, _, hq, _⟩ := hl
+    simp only [List.filterMap_cons, hq, Option.map_some, List.map_cons, List.sum_cons, ih]
+
+theorem ers_weight (L : List Combo → ℕ) (inc : Option String) (d : Doc) (ls' : List Line)
+    (hrel : List.Forall₂ (LineRel d.cur d.rates d.c) d.lines ls') :
+    ((exactRowsW d).map (fun er => (er.2.2 + incB inc er.2.1) * L er.2.1)).sum = rowsWL L inc d := by
+  unfold exactRowsW rowsWL
+  simp only [List.map_append, List.sum_append, List.map_map, Function.comp_def]
+  rw [lines_weight d.cur d.c d.rates d.lines ls' hrel (fun taxes W => (W + incB inc taxes) * L taxes)]
+
+/-! ## the exact side with an included category -/
+
+/-- the included category's share of a row -/
+def incG (inc : Option String) (t : ℚ) (taxes : List Combo) : ℚ :=
+  match inc with
+  | none => 0
+  | some k => rowG selP k t taxes
+
+theorem rowTaxQ_fst (inc : Option String) (q : ℚ) (taxes : List Combo) :
+    (Spec.C01.rowTaxQ inc q taxes).1 = rowQ (remQ inc q taxes) taxes := by
+  cases inc <;> rfl
+
+theorem rowTaxQ_snd (inc : Option String) (q : ℚ) (taxes : List Combo) :
+    (Spec.C01.rowTaxQ inc q taxes).2 = incG inc (remQ inc q taxes) taxes := by
+  cases inc with
+  | none => rfl
+  | some k =>
+    simp only [Spec.C01.rowTaxQ, incG, rowG, remQ]
+    congr 1
+
+theorem exactQ_tax_rows (d : Doc) :
+    (Spec.C01.exactQ d).tax =
+      ((exactRowsW d).map (fun er => rowQ (remQ d.includes er.1 er.2.1) er.2.1)).sum := by
+  simp only [Spec.C01.exactQ, exactRowsW, List.map_append, List.sum_append, List.map_map, List.filterMap_map,
+    List.map_filterMap, Function.comp_def, Option.map_map, rowTaxQ_fst]
+
+theorem exactQ_inc_rows (d : Doc) :
+    (Spec.C01.exactQ d).taxIncluded =
+      ((exactRowsW d).map (fun er => incG d.includes (remQ d.includes er.1 er.2.1) er.2.1)).sum := by
+  simp only [Spec.C01.exactQ, exactRowsW, List.map_append, List.sum_append, List.map_map, List.filterMap_map,
+    List.map_filterMap, Function.comp_def, Option.map_map, rowTaxQ_snd]
+
+theorem incG_diff (inc : Option String) (taxes : List Combo) (h : ∀ cb ∈ taxes, ComboOk ret cb) (T t : ℚ) :
+    |incG inc T taxes - incG inc t taxes| ≤ (kN inc taxes : ℚ) * |T - t| := by
+  cases inc with
+  | none => simp [incG, kN]
+  | some k =>
+    simp only [incG, rowG, kN]
+    refine list_sum_diff_le _ _ _ _ ?_
+    intro cb hcb
+    have hmem : cb ∈ taxes := (List.mem_filter.mp hcb).1
+    unfold comboG
+    cases hp : cb.percent with
+    | none => simp
+    | some p =>
+      simp only
+      have hle := (h cb hmem).2.1 p hp
+      have e : T * p.amount.toRat - t * p.amount.toRat = (T - t) * p.amount.toRat := by ring
+      rw [e, abs_mul]
+      calc |T - t| * |p.amount.toRat| ≤ |T - t| * 1 := mul_le_mul_of_nonneg_left hle (abs_nonneg _)
+        _ = |T - t| := mul_one _
+
+/-! ## the tax and the included tax of a document -/
+
+/-- the document class with an optional included category: `DocA`, combos of the class `ComboOk`,
+the included category not retained and with percentages ≥ 0 -/
+structure DocTI (ret : String → Bool) (d : Doc) : Prop where
+  base : DocA d
+  lineTaxes : ∀ l ∈ d.lines, ∀ cb ∈ l.taxes, ComboOk ret cb
+  discTaxes : ∀ x ∈ d.discounts, ∀ cb ∈ x.taxes, ComboOk ret cb
+  chTaxes : ∀ x ∈ d.charges, ∀ cb ∈ x.taxes, ComboOk ret cb
+  incLines : ∀ l ∈ d.lines, IncPos ret d.includes l.taxes
+  incDisc : ∀ x ∈ d.discounts, IncPos ret d.includes x.taxes
+  incCh : ∀ x ∈ d.charges, IncPos ret d.includes x.taxes
+
+theorem rows_ok (d : Doc) (p : Pre) (hd : DocTI ret d) (hpre : pre exactOps d = .ok p) :
+    ∀ rw ∈ p.rows, RowOk ret p.sum.exp rw ∧ IncPos ret d.includes rw.taxes := by
+  obtain ⟨hrel, hsum, hsexp, hS, hdis, hch, hrows, _, _⟩ := pre_spec d p hd.base hpre
+  rw [hrows]
+  intro rw hrw
+  simp only [taxRows, List.mem_append, List.mem_filterMap, List.mem_map] at hrw
+  rcases hrw with (⟨l', hl', hrw⟩ | ⟨x, hx, rfl⟩) | ⟨x, hx, rfl⟩
+  · obtain ⟨l, hl, t, q, ht, htax, hte, _, _⟩ := rel_mem d.cur d.c d.rates _ _ hrel l' hl'
+    rw [ht] at hrw
+    simp only [Option.map_some, Option.some.injEq] at hrw
+    subst hrw
+    refine ⟨⟨by simp only [htax]; exact hd.lineTaxes l hl, ?_⟩, by simp only [htax]; exact hd.incLines l hl⟩
+    rw [hsum]
+    unfold lineSum
+    exact foldl_accum_exp_ge_mem _ ⟨0, d.c⟩ t (List.mem_filterMap.mpr ⟨l', hl', ht⟩)
+  · rw [hdis] at hx
+    simp only [List.mem_map] at hx
+    obtain ⟨x0, hx0, rfl⟩ := hx
+    have he := (docAdj_ok d.c p.sum x0 (hd.base.discounts x0 hx0) hsexp 0).1
+    exact ⟨⟨by simp only [docAdj_taxes]; exact hd.discTaxes x0 hx0, by simp only [neg_exp]; exact he⟩,
+      by simp only [docAdj_taxes]; exact hd.incDisc x0 hx0⟩
+  · rw [hch] at hx
+    simp only [List.mem_map] at hx
+    obtain ⟨x0, hx0, rfl⟩ := hx
+    have he := (docAdj_ok d.c p.sum x0 (hd.base.charges x0 hx0) hsexp 0).1
+    exact ⟨⟨by simp only [docAdj_taxes]; exact hd.chTaxes x0 hx0, he⟩,
+      by simp only [docAdj_taxes]; exact hd.incCh x0 hx0⟩
+
+theorem preciseAmount_ok (c : ℕ) (ct : CatTotal) (h : ct.amount = ct.precise.rescaleX c) :
+    ct.preciseAmount.toRat = ct.precise.toRat ∧ ct.preciseAmount.exp ≤ max ct.precise.exp c := by
+  unfold CatTotal.preciseAmount
+  split
+  · exact ⟨rfl, by omega⟩
+  · rename_i hz
+    have hz' : ct.precise.value = 0 := by simpa using hz
+    rw [h]
+    refine ⟨?_, by rw [rescaleX_exp]; omega⟩
+    rw [rescaleX_zero _ c hz']
+    unfold Amount.toRat; rw [hz']; simp
+
+/-- **the working tax and the working included tax** of a document of the class `DocTI` -/
+theorem doc_tax_inc (d : Doc) (p : Pre) (tx : TaxTotal) (hd : DocTI ret d) (hpre : pre exactOps d = .ok p)
+    (htx : taxTotal exactOps d.rule d.c d.includes p.rows = .ok tx) :
+    tx.precise.exp ≤ p.sum.exp ∧
+    |tx.precise.toRat - (Spec.C01.exactQ d).tax| ≤ (taxWI d (groupsOf tx.cats) : ℚ) * halfUlp (d.c + 2) ∧
+    (∀ x, taxIncluded d.includes tx = some x → x.exp ≤ p.sum.exp) ∧
+    |optQ (taxIncluded d.includes tx) - (Spec.C01.exactQ d).taxIncluded| ≤
+      (incWI d (incGroupsOf d.includes tx.cats) : ℚ) * halfUlp (d.c + 2) := by
+  obtain ⟨hrel, _, hsexp, _, _, _, _, _, _⟩ := pre_spec d p hd.base hpre
+  have hok := rows_ok d p hd hpre
+  have hrr := rows_rel d p hd.base hpre
+  have h0 := halfUlp_nonneg (d.c + 2)
+  rw [hd.base.rule] at htx
+  have hrem : ∀ rw ∈ p.rows, (remRow d.c d.includes rw).taxes = rw.taxes ∧ RowOkP ret d.c p.sum.exp (remRow d.c d.includes rw) ∧
+      ∀ q, |(remRow d.c d.includes rw).total.toRat - remQ d.includes q rw.taxes| ≤
+        |rw.total.toRat - q| + (incB d.includes rw.taxes : ℚ) * halfUlp (d.c + 2) :=
+    fun rw hrw => remRow_ok d.c p.sum.exp d.includes rw (hok rw hrw).1 hsexp (hok rw hrw).2
+  have hfix : ∀ rw ∈ p.rows, prepareRow d.c (remRow d.c d.includes rw) = remRow d.c d.includes rw :=
+    fun rw hrw => prepareRow_fix d.c _ (hrem rw hrw).2.1.2.1
+  have htx' := taxTotal_reduce d.c d.includes p.rows tx hfix htx
+  have hrows' : ∀ rw ∈ p.rows.map (remRow d.c d.includes), RowOk ret p.sum.exp rw := by
+    intro rw hrw
+    simp only [List.mem_map] at hrw
+    obtain ⟨x, hx, rfl⟩ := hrw
+    exact ⟨(hrem x hx).2.1.1, (hrem x hx).2.1.2.2⟩
+  have hsumF : ∀ F : ℚ → List Combo → ℚ,
+      ((p.rows.map (remRow d.c d.includes)).map (fun rw => F rw.total.toRat rw.taxes)).sum =
+      (p.rows.map (fun rw => F (remRow d.c d.includes rw).total.toRat rw.taxes)).sum := by
+    intro F
+    rw [List.map_map]
+    congr 1
+    apply List.map_congr_left
+    intro x hx
+    simp only [Function.comp, (hrem x hx).1]
+  have hremG : ∀ rw ∈ p.rows, (∀ cb ∈ rw.taxes, ComboOk ret cb) ∧
+      ∀ q, |(remRow d.c d.includes rw).total.toRat - remQ d.includes q rw.taxes| ≤
+        |rw.total.toRat - q| + (incB d.includes rw.taxes : ℚ) * halfUlp (d.c + 2) :=
+    fun rw hrw => ⟨(hok rw hrw).1.1, (hrem rw hrw).2.2⟩
+  -- the tax
+  obtain ⟨t1, t2⟩ := taxTotal_w d.c p.sum.exp _ tx hrows' hsexp htx'
+  rw [hsumF rowQ] at t2
+  have e1 := rows_err_g rowQ comboW d.c d.includes p.rows (exactRowsW d)
+    (fun taxes h T t => rowQ_diff T t taxes h) hrr hremG
+  rw [ers_weight comboW d.includes d p.lines hrel, ← exactQ_tax_rows] at e1
+  refine ⟨t1, ?_, ?_⟩
+  · set A := (p.rows.map (fun rw => rowQ (remRow d.c d.includes rw).total.toRat rw.taxes)).sum
+    have e : tx.precise.toRat - (Spec.C01.exactQ d).tax = (tx.precise.toRat - A) + (A - (Spec.C01.exactQ d).tax) := by ring
+    rw [e]
+    refine le_trans (abs_add_le _ _) ?_
+    unfold taxWI
+    push_cast
+    linarith
+  -- the included tax
+  · have e2 := rows_err_g (incG d.includes) (kN d.includes) d.c d.includes p.rows (exactRowsW d)
+      (fun taxes h T t => incG_diff d.includes taxes h T t) hrr hremG
+    rw [ers_weight (kN d.includes) d.includes d p.lines hrel, ← exactQ_inc_rows] at e2
+    cases hinc : d.includes with
+    | none =>
+      refine ⟨fun x hx => by simp [taxIncluded] at hx, ?_⟩
+      rw [exactQ_inc_none d hinc]
+      simp only [taxIncluded, optQ, Option.map_none, Option.getD_none, sub_self, abs_zero]
+      positivity
+    | some k =>
+      rw [hinc] at e2 htx' hsumF
+      obtain ⟨c1, c2⟩ := taxTotal_cat d.c p.sum.exp _ tx (by rw [← hinc]; exact hrows') hsexp htx' k
+      rw [hsumF (rowG selP k)] at c1 c2
+      have hA : (p.rows.map (fun rw => incG (some k) (remRow d.c (some k) rw).total.toRat rw.taxes)).sum =
+          (p.rows.map (fun rw => rowG selP k (remRow d.c (some k) rw).total.toRat rw.taxes)).sum := rfl
+      rw [hA] at e2
+      set A := (p.rows.map (fun rw => rowG selP k (remRow d.c (some k) rw).total.toRat rw.taxes)).sum
+      cases hf : tx.cats.find? (fun ct => ct.code == k) with
+      | none =>
+        have hA0 := c1 hf
+        refine ⟨fun x hx => by simp [taxIncluded, hf] at hx, ?_⟩
+        simp only [taxIncluded, hf, optQ, Option.map_none, Option.getD_none]
+        have e : (0 : ℚ) - (Spec.C01.exactQ d).taxIncluded = A - (Spec.C01.exactQ d).taxIncluded := by rw [hA0]
+        rw [e]
+        refine le_trans e2 ?_
+        unfold incWI
+        rw [hinc]
+        push_cast
+        nlinarith [Nat.cast_nonneg (α := ℚ) (incGroupsOf (some k) tx.cats)]
+      | some ct =>
+        obtain ⟨g1, g2, g3, _⟩ := c2 ct hf
+        obtain ⟨q1, q2⟩ := preciseAmount_ok d.c ct g2
+        refine ⟨fun x hx => ?_, ?_⟩
+        · simp only [taxIncluded, hf, Option.map_some, Option.some.injEq] at hx
+          subst hx
+          omega
+        · simp only [taxIncluded, hf, optQ, Option.map_some, Option.getD_some, q1]
+          have e : ct.precise.toRat - (Spec.C01.exactQ d).taxIncluded =
+              (ct.precise.toRat - A) + (A - (Spec.C01.exactQ d).taxIncluded) := by ring
+          rw [e]
+          refine le_trans (abs_add_le _ _) ?_
+          have hG : incGroupsOf (some k) tx.cats = ct.rates.length := by simp [incGroupsOf, hf]
+          unfold incWI
+          rw [hinc, hG]
+          push_cast
+          linarith
+
 end Err
 end Calc
 end GoblVerif
